@@ -771,16 +771,28 @@ theorem prune_can_destroy_later_finalized_root :
       readable cexCl2 s' ⟨2, 0, 11⟩ = false) := by
   refine ⟨by decide, okOr (prune cexCl2 cexCl2 cexBeforePrune 1) Badger.init, isOk_eq (by decide), by decide, by decide, by decide, by decide⟩
 
-/-- **A finalized empty root of the io type blocks pruning for good**: `Visit` of the lone empty
-root asks for the node with the empty hash, which is never stored. -/
-theorem prune_fails_on_lone_empty_root :
+/-- `Prune` never traverses an empty root, nor a root whose root-node key is no longer visible
+(the two cases in which `Visit` could only fail). -/
+theorem prune_skips_empty_and_removed_roots (s : St) (v : Nat) :
+    ∀ e ∈ visitedRoots s v, e.1.2 ≠ 0 ∧ s.rootNode.live (encTH e.1) v = true := by
+  intro e he
+  simp only [visitedRoots, List.mem_filter, Bool.and_eq_true, bne_iff_ne, ne_eq] at he
+  exact he.2
+
+/-- **A finalized empty root of the io type no longer blocks pruning** (regression of the
+repaired defect; before the repair `Visit` of the lone empty root asked for the node with the
+empty hash, which is never stored, and `Prune(1)` failed for good): the prune succeeds, the
+window moves on and the retained finalized root of version 2 is still fully readable. -/
+theorem prune_succeeds_with_lone_empty_root :
     let s0 := Badger.init
     let s1 := okOr (commit s0 ⟨1, 0, 0⟩ ⟨1, 0, 10⟩ [1, 2, 10] []) s0
     let s2 := okOr (commit s1 ⟨1, 1, 0⟩ ⟨1, 1, 0⟩ [] []) s1
     let s3 := okOr (finalize s2 1 [⟨1, 0, 10⟩, ⟨1, 1, 0⟩]) s2
     let s4 := okOr (commit s3 ⟨1, 0, 10⟩ ⟨2, 0, 11⟩ [3, 11] [10]) s3
     let s5 := okOr (finalize s4 2 [⟨2, 0, 11⟩]) s4
-    s5.last = some 2 ∧ s5.earliest = 1 ∧ errOf (prune cexCl cexCl s5 1) = some .nodeNotFound := by
+    let s6 := okOr (prune cexCl cexCl s5 1) Badger.init
+    s5.last = some 2 ∧ s5.earliest = 1 ∧ isOk (prune cexCl cexCl s5 1) = true ∧
+    s6.earliest = 2 ∧ readable cexCl s6 ⟨2, 0, 11⟩ = true := by
   decide
 
 end BadgerThms
